@@ -102,6 +102,9 @@ func (w *World) runTx(tx *Tx) (events []*Step, err error) {
 		case "call":
 			to := w.addrOf(tx.To)
 			inner.To = &to
+		case "pbad":
+			to := w.addrOf("P")
+			inner.To = &to
 		case "sdata":
 			to := w.addrOf(tx.Payer)
 			inner.To = &to
